@@ -11,9 +11,17 @@ HOOKS = {
 }
 
 ENGINES = {
+    "vh-lang": {"path": "harness/lang", "kind": "in-process generators + reference-model oracles for parser, values, scalars, SDL"},
 }
 
 PROPS = {
+    "C15": {
+        "engine": "vh-lang",
+        "technique": "runtime round-trip monitor over generated values (print->parse, JSON->value)",
+        "level_text": "Exploration: tens of thousands (quick) to millions (thorough) of generated values are pushed through the real "
+                      "Display printer + parser and the JSON conversions; a strict-equality monitor compares what comes back.",
+        "level_note": "Trusts serde_json on the oracle side and the harness' strict equality; says nothing about values the generator does not reach (Binary is excluded as it is not a GraphQL value).",
+    },
 }
 
 _ALL = ["C%02d" % i for i in range(1, 36)]
